@@ -40,7 +40,7 @@ HOST_FAMILIES = {
     "ghio": ["github.io", "a.github.io", "b.a.github.io", "io"],
     "lang": ["lemonde.fr", "fr.lemonde.fr", "en-us.lemonde.fr", "m.lemonde.fr", "amp.lemonde.fr"],
     "amp": ["lemonde.fr", "amp.lemonde.fr", "m.lemonde.fr", "mobile.lemonde.fr", "www2.lemonde.fr", "amp-lemonde.fr", "www.m.lemonde.fr"],
-    "special": ["localhost", "127.0.0.1", "localhost.com", "x.intranet", "intranet", "lemonde.fr"],
+    "special": ["localhost", "127.0.0.1", "app.localhost", "localhost.com", "x.intranet", "intranet", "lemonde.fr"],
     "platform": ["facebook.com", "m.facebook.com", "fr-fr.facebook.com", "www.youtube.com", "m.youtube.com", "youtu.be", "www.youtube-nocookie.com", "fb.me", "facebook.co.uk", "lemonde.fr"],
 }
 FAMILY_ORDER = ["fr", "couk", "idn", "ghio", "lang", "special", "platform", "amp"]
@@ -388,7 +388,7 @@ def parse_simple(url):
         return None
     if not host or host != host.lower() or any(ord(ch) > 127 for ch in host) or "xn--" in host:
         return None
-    if host == "localhost" or host.replace(".", "").isdigit() or not all(host.split(".")):
+    if host.replace(".", "").isdigit() or not all(host.split(".")):
         return None
     hostport = sp.netloc.rsplit("@", 1)[-1]
     netloc_host = hostport.split(":")[0]
